@@ -81,10 +81,19 @@ def gen_value(rng, ty, style):
 def gen_array(rng, ty, nullable, n):
     style = rng.choice(["small", "small", "extreme", "random"])
     shape = rng.choice(["runs", "alternate", "iid", "nullruns"])
+    if n >= 300:
+        shape = "longruns"
     out = []
     cur = gen_value(rng, ty, style)
     while len(out) < n:
-        if shape == "runs":
+        if shape == "longruns":
+            # run lengths around the first boundary of the variable-length run count (1 byte up to 127)
+            k = rng.choice([127, 128, 128, 129, 255, 256])
+            v = gen_value(rng, ty, style) if rng.random() < 0.85 else None
+            while out and v == out[-1]:
+                v = gen_value(rng, ty, "random")
+            out += [v] * k
+        elif shape == "runs":
             k = rng.randint(1, 9)
             v = gen_value(rng, ty, style) if rng.random() < 0.8 else None
             out += [v] * k
@@ -140,6 +149,10 @@ def gen_case(rng, tier):
     encode = rng.choice([0, 0, 1, 2])
     n = rng.choice([1, 2, 3, 8, 9, 17, rng.randint(1, 60), rng.randint(1, 200 if tier == "quick" else 400)])
     block = rng.choice([32, 48, 64, 128, 4096])
+    if encode == 1 and rng.random() < 0.45:      # (a dictionary column cuts one block per row: nothing to gain there)
+        # long runs: only meaningful for the run-length encoding, in blocks large enough to hold them
+        n = rng.choice([300, 400, 700])        # (the model counts in unary: encoded sizes have to stay below a few thousand bytes)
+        block = 4096
     k = rng.randint(1, 3)
     cuts = sorted(rng.randint(0, n) for _ in range(k - 1))
     vals = gen_array(rng, ty, nullable, n)
